@@ -548,13 +548,19 @@ func randomRun(i int, rng *rand.Rand) {
 				}
 			}
 			s := text(p, rng)
-			if err := netlist.LoadFromText(l, s); err != nil {
-				fmt.Fprintln(os.Stderr, "random run: load failed:", s, err)
-				os.Exit(4)
+			if _, err := build(func() (matcher, error) { return nil, netlist.LoadFromText(l, s) }); err != nil {
+				// a valid prefix was refused: deviation of the real code, reported (not a dead driver)
+				atomic.AddInt64(&nMis, 1)
+				vh.Emit(Mismatch{Kind: "mismatch", API: "random-load", Emb: e, Rules: []string{s}, Got: "load failed: " + err.Error(), Want: true})
+				return
 			}
 			run.Events = append(run.Events, Ev{Ev: "Append", P: s})
 		}
-		l.Sort()
+		if _, err := build(func() (matcher, error) { l.Sort(); return nil, nil }); err != nil {
+			atomic.AddInt64(&nMis, 1)
+			vh.Emit(Mismatch{Kind: "mismatch", API: "random-sort", Emb: e, Got: err.Error(), Want: true})
+			return
+		}
 		run.Events = append(run.Events, Ev{Ev: "Sort"})
 		nq := 3 + rng.Intn(6)
 		for j := 0; j < nq; j++ {
@@ -566,8 +572,9 @@ func randomRun(i int, rng *rand.Rand) {
 			}
 			got := safeMatch(l, a)
 			if got != "true" && got != "false" {
-				fmt.Fprintln(os.Stderr, "random run:", got)
-				os.Exit(4)
+				atomic.AddInt64(&nMis, 1)
+				vh.Emit(Mismatch{Kind: "mismatch", API: "random-contains", Emb: e, Addr: a.String(), Got: got})
+				return
 			}
 			res := got == "true"
 			run.Events = append(run.Events, Ev{Ev: "Contains", A: a.String(), R: &res})
